@@ -138,3 +138,23 @@ Theorem C14_discipline_gives_own_reply :
   forall tr, disc_ok tr = true -> xchg_ok tr = true.
 Proof. exact discipline_gives_own_reply. Qed.
 Print Assumptions C14_discipline_gives_own_reply.
+
+(** TRANSLATED obligation (T), the urwid screen.  [screen_regions] (same translator) lists the
+    methods of the INSTALLED [urwid.raw_display.Screen] that reach the terminal's files, and
+    whether [UrwidImageScreen] overrides them with [@lock_tty].  Required (model/LockSites.v):
+    every public method that writes / flushes the output file directly ([write], [flush]),
+    [draw_screen] (the library: "[@lock_tty] prevents queries during a synced update") and
+    [get_available_raw_input], the reader urwid's event loop calls whenever the terminal
+    becomes readable — unsynchronized, it can swallow the reply to a query made by another
+    thread.  Not demanded: [_start] / [_stop] / [get_input] (the unchanged code does not
+    wrap them).  Trusts: the translator's call graph of urwid's screen classes
+    ([self.m()] / [super().m()] calls, union over the MRO), Python's method resolution
+    (an override in the subclass is what the event loop calls). *)
+Theorem C14_screen_io_under_lock : forallb screen_locked screen_regions = true.
+Proof. exact screen_io_under_lock. Qed.
+Print Assumptions C14_screen_io_under_lock.
+
+(** the four expected methods exist in the installed urwid and do reach the terminal *)
+Theorem C14_screen_regions_cover : screen_covers screen_regions = true.
+Proof. exact screen_regions_cover. Qed.
+Print Assumptions C14_screen_regions_cover.
